@@ -454,14 +454,18 @@ func (root *Root) replaceArgVars(vars map[string]interface{}, v interface{}, at 
 		}
 	case map[string]interface{}:
 		if it, _ := BaseType(at).(*Input); it != nil {
+			// Build a new map, the literal in the parsed request must not
+			// change so that the request can be evaluated again.
+			nv := make(map[string]interface{}, len(tv))
 			for k, v := range tv {
 				var vt Type
 				if f := it.fields.get(k); f != nil {
 					vt = f.Type
 				}
-				tv[k], ea2 = root.replaceArgVars(vars, v, vt)
+				nv[k], ea2 = root.replaceArgVars(vars, v, vt)
 				ea = append(ea, ea2...)
 			}
+			val = nv
 			if val, err = it.CoerceIn(val); err != nil {
 				ea = append(ea, resWarnp(nil, "%s", err))
 			}
@@ -475,10 +479,12 @@ func (root *Root) replaceArgVars(vars map[string]interface{}, v interface{}, at 
 		if lt, _ := at.(*List); lt != nil {
 			mt = lt.Base
 		}
+		nv := make([]interface{}, len(tv)) // a new list, see the comment for maps
 		for i, v := range tv {
-			tv[i], ea2 = root.replaceArgVars(vars, v, mt)
+			nv[i], ea2 = root.replaceArgVars(vars, v, mt)
 			ea = append(ea, ea2...)
 		}
+		val = nv
 		if mt == nil {
 			// Not declared as a plain list, let the declared type accept
 			// (a non-null list) or reject (anything else) the list.
